@@ -422,13 +422,17 @@ def jIsEnd (o : Obj) : Bool :=
   | some (.str cv) => cv == endValB && msgIsEnd o
   | _ => false
 
+/-- the map `JSONFormatterHook.PostFormat` marshals: the decoded formatter output with `integrity` set to
+the hex tag and, for the first entry of a chain, `chain` set to `new` -/
+def jsonHookMap (c : CryptoOps) (st : Calc) (o : Obj) : Obj :=
+  let r := st.step c (conv o)
+  let o1 := setKey intKeyB (.str (hexEnc r.2.1)) o
+  if r.2.2 then setKey chainKeyB (.str newValB) o1 else o1
+
 /-- `JSONFormatterHook.PostFormat` on the decoded formatter output: new calculator state and the line
 (without the final `\n`) -/
 def jsonHookObj (c : CryptoOps) (st : Calc) (o : Obj) : Calc × Bytes :=
-  let r := st.step c (conv o)
-  let o1 := setKey intKeyB (.str (hexEnc r.2.1)) o
-  let o2 := if r.2.2 then setKey chainKeyB (.str newValB) o1 else o1
-  (r.1, marshal (.obj o2))
+  ((st.step c (conv o)).1, marshal (.obj (jsonHookMap c st o)))
 
 /-- `PostFormat` on the formatter's bytes; `none`: the hook returns an error and nothing is written -/
 def jsonHook (c : CryptoOps) (st : Calc) (formatted : Bytes) : Option (Calc × Bytes) :=
